@@ -2670,6 +2670,8 @@ static Node *unary(Token **rest, Token *tok) {
 
   // [GNU] labels-as-values
   if (equal(tok, "&&")) {
+    if (!current_fn)
+      error_tok(tok, "label address outside of a function");
     Node *node = new_node(ND_LABEL_VAL, tok);
     node->label = get_ident(tok->next);
     node->goto_next = gotos;
